@@ -1,5 +1,5 @@
 """Correspondence for the source-to-Lean translator (gen/py2lean.py) and its run-time library (lean/Asn1/PyLite.lean):
-the *translation* of a function (driver ops KTAG, KLEN, KTOBYTES, KOIDENC, KOIDDEC, KTIME, KREAL, KREALDEC, KDECLEN, KDECTAG, KCERBOOL, KWRAP, KINTDEC; PYFROMBYTES) and the function itself in /repo are
+the *translation* of a function (driver ops KTAG, KLEN, KTOBYTES, KOIDENC, KOIDDEC, KTIME, KREAL, KREALDEC, KDECLEN, KDECTAG, KOCTCHUNK, KCERBOOL, KWRAP, KINTDEC; PYFROMBYTES) and the function itself in /repo are
 run on the same arguments; the Python builtins PyLite transcribes (PYOP) are compared with CPython.
 
 A disagreement means the translator or PyLite misrepresents the code (machinery fault to repair) - it is reported as a
@@ -47,13 +47,14 @@ def _py(f, *a, **kw):
     return ('ok', r)
 
 
-def check(rep, drv, seed, n=400, which=('encodeTag', 'encodeLength', 'toBytes', 'oidEncode', 'oidDecode', 'timeCanon', 'realBin', 'realDec', 'decodeLength', 'cerBool', 'wrapTags', 'intDecode', 'decodeTag')):
+def check(rep, drv, seed, n=400, which=('encodeTag', 'encodeLength', 'toBytes', 'oidEncode', 'oidDecode', 'timeCanon', 'realBin', 'realDec', 'decodeLength', 'cerBool', 'wrapTags', 'intDecode', 'decodeTag', 'octetChunks')):
     """returns number of cases compared"""
     from pyasn1.codec.ber import encoder as benc, decoder as bdec
     from pyasn1.compat import integer
     from pyasn1.type import tag as ptag, univ
     rng = common.rng_for(seed, 'kernels')
     done = 0
+    nonlocal_done = [0]
 
     def cmp_(op, line, impl):
         nonlocal done
@@ -101,6 +102,8 @@ def check(rep, drv, seed, n=400, which=('encodeTag', 'encodeLength', 'toBytes', 
         i = rng.randrange(-9, 10)
         cmp_('PYSL', 'PYSL from %d %s' % (i, ' '.join(map(str, t))), ('ok', t[i:]))
         cmp_('PYSL', 'PYSL to %d %s' % (i, ' '.join(map(str, t))), ('ok', t[:i]))
+        j = rng.randrange(-9, 10)
+        cmp_('PYSL', 'PYSL2 %d %d %s' % (i, j, ' '.join(map(str, t))), ('ok', t[i:j]))
         a, b = rng.randrange(-5, 6), rng.randrange(0, 9)
         cmp_('PYOP', 'PYOP pow %d %d' % (a, b), ('ok', [a ** b]))
     # int.from_bytes
@@ -379,6 +382,32 @@ def check(rep, drv, seed, n=400, which=('encodeTag', 'encodeLength', 'toBytes', 
             if impl[0] == 'err' and impl[1] == 'EndOfStreamError':
                 impl = ('err', 'SubstrateUnderrunError')
             cmp_('decodeTag', 'KDECTAG %s' % ' '.join(map(str, data)), impl)
+    if 'octetChunks' in which:
+        oenc = benc.OctetStringEncoder()
+
+        def stub_fun(chunk, asn1Spec, **options):
+            return bytes([0xEE, len(chunk) % 256]) + bytes(chunk)
+        for i in range(n):
+            ln = rng.choice([0, 1, 2, 3, 5, 7, 8, 9, 16, 17, 40, 999, 1000, 1001, 2000, 2001, 2500])
+            mcs = rng.choice([0, 1, 2, 3, 4, 7, 8, 1000, 999, 1001, ln, max(ln - 1, 0), ln + 1])
+            if ln > 100 and 0 < mcs < 100:
+                ln = rng.randrange(0, 60)
+            body = bytes(rng.randrange(256) for _ in range(ln))
+            for route in ('value', 'octets+spec'):
+                def real(route=route):
+                    if route == 'value':
+                        r = oenc.encodeValue(univ.OctetString(body), None, stub_fun, maxChunkSize=mcs)
+                    else:
+                        r = oenc.encodeValue(body, univ.OctetString(), stub_fun, maxChunkSize=mcs)
+                    return list(r[0]) + [int(r[1]), int(r[2])]
+                impl = _py(real)
+                ans_line = 'KOCTCHUNK %d %s' % (mcs, ' '.join(map(str, body)))
+                nonlocal_done[0] += 1
+                rep.corr_checked += 1
+                ans = drv.ask(ans_line).replace('true', '1').replace('false', '0').replace('|', '')
+                got = _ints(ans)
+                if got != impl:
+                    rep.disagree('KERNEL:octetChunks', ans_line[:300], ans[:300], repr(impl)[:300])
     if 'cerBool' in which:
         import io as _io2
         from pyasn1.codec.cer import decoder as cdec_
@@ -456,7 +485,7 @@ def check(rep, drv, seed, n=400, which=('encodeTag', 'encodeLength', 'toBytes', 
                 return ['no-value']
             cmp_('intDecode', 'KINTDEC ' + ' '.join(str(b) for b in body), _py(real))
     rep.count('kernel_correspondence', done)
-    return done
+    return done + nonlocal_done[0]
 
 
 def obligations(rep, needed):
